@@ -24,7 +24,7 @@ CONSTANTS DefaultBufSize,   \* 4096 in the code
 VARIABLES
   src,    \* the io.Reader: [S, pos, failed, fkind, withData]
   R,      \* reader implementation state (record, see RInit)
-  g,      \* abstract (ghost) state: [c, rmark, opEmptySeen, opFailedSeen]
+  g,      \* abstract (ghost) state: [c, rmark, trail (empty reads in a row at the end of this call's reads), gaveUp]
   pc,     \* "idle" | "reading"
   cur,    \* operation in flight: [op, n, gc]  (gc = cursor at Start)
   res     \* observable result of the last completed operation
@@ -127,10 +127,15 @@ SrcAfter(o) == [src EXCEPT !.pos = src.pos + o.m, !.failed = src.failed \/ o.e #
 (*  r    : result record                                                   *)
 (* Accepts exactly what the property words allow.                          *)
 IsSrcErr(e, s) == e = s.fkind
+\* the least number of consecutive empty reads that justifies giving up (the code waits for MaxEmpty = 100 of them;
+\* the contract only says "more than one": an isolated empty read between data is fragmentation, not a stall)
+MinGiveUpRun == 2
 AbsAccepts(gb, ga, s, r) ==
   LET c == gb.c
-      justified == s.failed \/ ga.opEmptySeen \/ gb.gaveUp   \* a failure needs a cause: the source
-          \* failed, or it returned (0, nil) during this call, or the reader had already given up
+      justified == s.failed \/ ga.trail >= MinGiveUpRun \/ gb.gaveUp   \* a failure needs a cause: the source
+          \* failed, or the reads of this call ENDED with empty reads in a row (a reader may lose patience with a
+          \* source that stops making progress, not with one that interleaves empty reads with data), or the
+          \* reader had already given up
       errOK(need) ==                                \* clauses on a failing (or short) call
           /\ r.e # "nil"                            \* "a non-nil error"
           /\ c + need > s.pos                       \* the bytes handed over so far do not suffice
@@ -154,34 +159,34 @@ ReadLenOK(ga, readlen) == readlen = ga.c - ga.rmark
 
 -----------------------------------------------------------------------------
 (* Actions                                                                 *)
-GInit == [c |-> 0, rmark |-> 0, opEmptySeen |-> FALSE, gaveUp |-> FALSE]
+GInit == [c |-> 0, rmark |-> 0, trail |-> 0, gaveUp |-> FALSE]
 NoRes == [op |-> "none", n |-> 0, ok |-> TRUE, start |-> 0, m |-> 0, e |-> "nil"]
 
 \* Completing an operation: apply the epilogue, advance the ghost cursor by what
 \* the implementation reports as consumed.
-Complete(r, op, n, a, gEmpty) ==
+Complete(r, op, n, a, gTrail) ==
   LET ep == Epilogue(r, op, n, a)
       adv == ep.r.ri - r.ri
   IN /\ R' = ep.r
      /\ res' = ep.res
-     /\ g' = [g EXCEPT !.c = g.c + adv, !.opEmptySeen = gEmpty,
-                       !.gaveUp = g.gaveUp \/ (ep.res.e # "nil" /\ ~src'.failed /\ gEmpty)]
+     /\ g' = [g EXCEPT !.c = g.c + adv, !.trail = gTrail,
+                       !.gaveUp = g.gaveUp \/ (ep.res.e # "nil" /\ ~src'.failed /\ gTrail >= MinGiveUpRun)]
      /\ pc' = "idle"
 
 Start(op, n) ==
   /\ pc = "idle"
-  /\ cur' = [op |-> op, n |-> n, gb |-> [g EXCEPT !.opEmptySeen = FALSE]]
+  /\ cur' = [op |-> op, n |-> n, gb |-> [g EXCEPT !.trail = 0]]
   /\ IF n < 0 /\ op # "readbinary"
      THEN /\ res' = [op |-> op, n |-> n, ok |-> FALSE, start |-> R.base + R.ri, m |-> 0, e |-> "NEG"]
-          /\ g' = [g EXCEPT !.opEmptySeen = FALSE]
+          /\ g' = [g EXCEPT !.trail = 0]
           /\ UNCHANGED <<R, pc, src>>
      ELSE IF n <= Avail(R)                                   \* fast path
-     THEN UNCHANGED src /\ Complete(R, op, n, n, FALSE)
+     THEN UNCHANGED src /\ Complete(R, op, n, n, 0)
      ELSE IF R.err # "nil"                                   \* sticky error: no read is issued
-     THEN UNCHANGED src /\ Complete(R, op, n, Avail(R), FALSE)
+     THEN UNCHANGED src /\ Complete(R, op, n, Avail(R), 0)
      ELSE /\ R' = AcqPrep(R, n)
           /\ pc' = "reading"
-          /\ g' = [g EXCEPT !.opEmptySeen = FALSE]
+          /\ g' = [g EXCEPT !.trail = 0]
           /\ UNCHANGED <<src, res>>
 
 SrcRead(m, e) ==
@@ -189,10 +194,11 @@ SrcRead(m, e) ==
   /\ [m |-> m, e |-> e] \in SrcOutcomes(R.bcap - R.blen)
   /\ src' = SrcAfter([m |-> m, e |-> e])
   /\ LET x == AcqRead(R, cur.n, m, e)
-         emp == g.opEmptySeen \/ (m = 0 /\ e = "nil" /\ R.bcap - R.blen > 0)
+         emp == IF m = 0 /\ e = "nil" /\ R.bcap - R.blen > 0 THEN Min(g.trail + 1, MinGiveUpRun)
+                ELSE IF m > 0 THEN 0 ELSE g.trail
      IN IF x.done
         THEN Complete(x.r, cur.op, cur.n, x.a, emp)
-        ELSE /\ R' = x.r /\ g' = [g EXCEPT !.opEmptySeen = emp]
+        ELSE /\ R' = x.r /\ g' = [g EXCEPT !.trail = emp]
              /\ UNCHANGED <<pc, res>>
   /\ UNCHANGED cur
 
